@@ -193,6 +193,11 @@ def obligations(tier):
     for tree in t3:
         for name, opt in xf3(tier):
             obs.append(_mk(tree, name, opt))
+    if q:
+        # two fibers at the transformed depth, one of them empty and one not
+        for tree in ([[1], []], [[], [1]]):
+            for name, opt in (("flatten_unflatten", {"depth": 1}), ("flattenRanks", {"depth": 1}), ("swapRanks", {"depth": 1})):
+                obs.append(_mk(tree, name, opt))
     for tree in ([[[[1]]]] if q else [[[[1]]], [[[1, 1]]], [[[1], [1]]]]):
         for name, opt in (("flatten_unflatten", {"depth": 1, "levels": 2}), ("flattenRanks", {"depth": 1, "levels": 2}), ("flatten_unflatten", {"levels": 3}),
                           ("swapRanks", {"depth": 2}), ("flatten_unflatten", {"depth": 2})):
